@@ -22,7 +22,7 @@ MUTANTS = [
     dict(id="c17-nematic-scalar", props=["C17"], expect="fire", file=N, old="Qtrace *= ndim / (ndim - 1)", new="Qtrace *= (ndim - 1) / ndim", mention="trace:scalar"),
     dict(id="c17-nematic-eig", props=["C17"], expect="fire", file=N, old="eigenvalues[n, i] = np.linalg.eig(QIJ[n, i])[0].max() * 2.0", new="eigenvalues[n, i] = np.linalg.eig(QIJ[n, i])[0].min() * 2.0", mention="eig:scalar"),
     dict(id="c17-gyr-nocentre", props=["C17"], expect="fire", file=S, old="    pos_group = pos_group - center_of_mass\n", new="", mention="centred"),
-    dict(id="c17-gyr-combos", props=["C17"], expect="fire", file=S, old="combinations = [(0, 0), (0, 1), (0, 2), (1, 1), (1, 2), (2, 2)]", new="combinations = [(0, 0), (0, 1), (0, 2), (1, 1), (2, 2)]", mention="3D:entries"),
+    dict(id="c17-gyr-combos", props=["C17"], expect="fire", file=S, old="combinations = [(0, 0), (0, 1), (0, 2), (1, 1), (1, 2), (2, 2)]", new="combinations = [(0, 0), (0, 1), (0, 2), (1, 1), (2, 2)]", mention="3D:entries-complete"),
     dict(id="c17-gyr-aspher", props=["C17"], expect="fire", file=S, old="principal_component[2] - 0.5 * principal_component.sum()", new="principal_component[0] - 0.5 * principal_component.sum()", mention="asphericity"),
     dict(id="c17-gyr-sort-desc", props=["C17"], expect="fire", file=S, old="principal_component = np.sort(np.linalg.eig(results)[0])", new="principal_component = np.sort(np.linalg.eig(results)[0])[::-1]", mention="acylindricity"),
     # twins
